@@ -130,3 +130,26 @@ Definition api_cv_realizable_relaxed2 (v : val) : val :=
 (* [x; aas] -> firm sites of a translation (D14b signature) *)
 Definition api_cv_firm_sites (v : val) : val :=
   VL (map (fun n => VZ (Z.of_nat n)) (firm_sites (cv_input (argn 0 v)) (getS (argn 1 v)))).
+
+(* [x; [[peptide; ids]; ...]] -> witness when look-behind-dependent sites (also those seen only with the
+   residues upstream of the start) are optional  (D14b signature for headers) *)
+Definition api_cv_witness_relaxed2 (v : val) : val :=
+  let x := cv_input (argn 0 v) in
+  VL (map (fun q =>
+        let ids := cv_nats (argn 1 q) in
+        let h := named x ids in
+        ofB (ids_ok x ids && nonempty h && pairwise false h &&
+             mem_seq (getS (argn 0 q)) (may_products_relaxed2 x h)))
+      (getL (argn 1 v))).
+
+(* [x; mask; start] -> soft sites of the translation of the masked haplotype from start: rule sites (also
+   those visible only with the residues upstream of start) that are not firm  (D14b signature) *)
+Definition api_cv_soft_sites (v : val) : val :=
+  let x := cv_input (argn 0 v) in
+  let h := select (map getB (getL (argn 1 v))) (in_vars x) in
+  let st := getZ (argn 2 v) in
+  let hs := apply_hap (in_tx x) h in
+  let aas := fst (translate_from hs st (map (shift h) (in_sec x))) in
+  let firm := firm_sites x aas in
+  VL (map (fun n => VZ (Z.of_nat n))
+          (filter (fun i => negb (mem_nat i firm)) (raw_sites_ctx (in_rule x) (upstream_rl hs st) aas [] 0))).
